@@ -28,6 +28,8 @@ def scratch(tag):
     os.makedirs(d)
     rc, out = sh("git -C /repo archive HEAD | tar -x -C %s" % d, "/")
     assert rc == 0, out
+    if not os.path.exists(d + "/Cargo.lock"):
+        shutil.copy("/repo/Cargo.lock", d + "/Cargo.lock")
     return d
 
 
